@@ -1,7 +1,7 @@
 import FiberModel.C16.Sim
 /-
 C16 — one request against the storage back-end (`Config.Storage` / built-in memory): the model's
-`handle` refines the specification step and keeps the invariant.
+`handleCore` refines the specification step and keeps the invariant.
 -/
 set_option linter.unusedSimpArgs false
 set_option linter.unusedVariables false
@@ -11,7 +11,7 @@ open B
 
 /-- what the method switch leaves behind, storage back-end -/
 def DecStorage (cfg : Cfg) (q : Req) (st : St) (c1 : Ctx) : Decision → Prop
-  | .reject _ => isSafe q.method = false ∧ c1.st.store = st.store
+  | .reject _ _ => isSafe q.method = false ∧ c1.st.store = st.store
   | .proceed tok =>
     if isSafe q.method then
       c1.st.store = st.store ∧ c1.fs = false ∧ c1.fd = false ∧
@@ -275,11 +275,11 @@ theorem tail_storage (cfg : Cfg) (gen sgen : Nat → Bytes) (q : Req) (c : Ctx) 
 theorem sim_storage (raw : List Bytes) (cfg : Cfg)
     (hbuild : buildLoop raw [] [] = some (cfg.origins, cfg.subs))
     (gen sgen : Nat → Bytes) (hgen : ∀ n, gen n ≠ []) (hpos : 0 < cfg.idle) (hb : cfg.backend = .storage)
-    (st : St) (s : SpecSt) (q : Req) (hwo : q.ourl.wf) (hwr : q.rurl.wf)
+    (st : St) (s : SpecSt) (q : Req)
     (hnow : s.now = st.now) (hI : IssuedOK gen st.ntok s.issued)
     (hS : StoreOK gen cfg.idle st.ntok st.now st.store s.live) (hN : keysNodup st.store)
-    (st' : St) (r : Resp) (hh : handle cfg gen sgen st q = (st', r)) :
-    ∃ s', specReq (specConfig cfg.backend cfg.ext cfg.single cfg.idle raw) s q (obsOf cfg st' r) = .ok s' ∧
+    (st' : St) (r : Resp) (hh : handleCore cfg gen sgen st q = (st', r)) :
+    ∃ s', specReqCore (specConfig cfg.backend cfg.ext cfg.single cfg.idle raw) s q (obsOf cfg st' r) = .ok s' ∧
       s'.now = st'.now ∧ IssuedOK gen st'.ntok s'.issued ∧
       StoreOK gen cfg.idle st'.ntok st'.now st'.store s'.live ∧ keysNodup st'.store := by
   have hnm : ¬ (Backend.storage = Backend.sessMw) := by decide
@@ -291,8 +291,8 @@ theorem sim_storage (raw : List Bytes) (cfg : Cfg)
   have hsb : (specConfig cfg.backend cfg.ext cfg.single cfg.idle raw).sessionBacked = false := by
     simp [specConfig, hb]
   cases d with
-  | reject e =>
-    rw [handle_reject cfg gen sgen st q c1 e (by rw [hc0]; exact hd), hce] at hh
+  | reject e er =>
+    rw [handle_reject cfg gen sgen st q c1 e er (by rw [hc0]; exact hd), hce] at hh
     cases hh
     obtain ⟨hunsafe, hstore⟩ := hdec
     refine ⟨_, specReq_intro _ s q _ s.live s.live ?_ ?_ ?_, ?_, ?_, ?_, ?_⟩
@@ -322,7 +322,7 @@ theorem sim_storage (raw : List Bytes) (cfg : Cfg)
         ((c1'.gens = [] ∧ token = q.ck ∧ s.liveAt token = true) ∨ c1'.gens = [token]) →
         (∃ i, i < c1'.st.ntok ∧ gen i = token) →
         (cfg.single = true → isSafe q.method = false → c1'.gens = [token]) →
-        ∃ s', specReq (specConfig cfg.backend cfg.ext cfg.single cfg.idle raw) s q (obsOf cfg c2.st (assemble c2 r2)) = .ok s' ∧
+        ∃ s', specReqCore (specConfig cfg.backend cfg.ext cfg.single cfg.idle raw) s q (obsOf cfg c2.st (assemble c2 r2)) = .ok s' ∧
           s'.now = c2.st.now ∧ IssuedOK gen c2.st.ntok s'.issued ∧
           StoreOK gen cfg.idle c2.st.ntok c2.st.now c2.st.store s'.live ∧ keysNodup c2.st.store by
       by_cases htok : tok = []
@@ -431,7 +431,7 @@ theorem sim_storage (raw : List Bytes) (cfg : Cfg)
           have hear : (obsOf cfg c2.st (assemble c2 r2)).early = false := by
             show r2.early = false
             rw [hearly hsafe, hfg1, hfs1, hfd1, hfg, hfs, hfd]; rfl
-          have horig := gate_sound raw cfg hbuild q hwo hwr hgate
+          have horig := gate_sound raw cfg hbuild q hgate
           have hacc : acceptedToken (specConfig cfg.backend cfg.ext cfg.single cfg.idle raw)
               { s with issued := s.issued ++ (obsOf cfg c2.st (assemble c2 r2)).gens } q = some q.ck := by
             refine accepted_of (specConfig cfg.backend cfg.ext cfg.single cfg.idle raw)
